@@ -50,6 +50,8 @@ RULE = ("histories of 3-25 further calls after a set-up of 2-10 rectangles, 0-2 
         "rand-poly, rand-orth, rand-poly-off, rand-orth-off (random calls biased to shapes touched by routes or "
         "blocking a straight line; several moves of one shape per transaction, add+move, move+delete, re-add at the "
         "same place, endpoint moves, no-op transactions, toggling setTransactionUse); segmentPenalty in {0,10,50}. "
+        "500 histories quick / 4000 thorough, each in a forked child (an abort inside libavoid is replayed last "
+        "and reported as CRASH without losing the other histories). "
         "A case is non-trivial if >= 2 processing points were checked and some compared route has a bend.")
 TRUSTED_BASE = ["Lean 4.33 kernel", "axioms: propext, Classical.choice, Quot.sound",
                 "harness (generator legality is re-checked by the model's `legal`), hex-float import, line protocol",
